@@ -36,6 +36,8 @@ def run(chk, args):
     fs_model(chk, P / "temp_then_replace.json", "reference:temp-then-replace", expect_violation=False)
     fs_model(chk, P / "replace_before_close.json", "reference:replace-before-close", expect_violation=True)
     fs_model(chk, P / "unlink_then_rename.json", "reference:unlink-then-rename", expect_violation=True)
+    fs_model(chk, P / "temp_then_replace_stale_scratch.json", "reference:temp-then-replace with a stale scratch file", expect_violation=False)
+    fs_model(chk, P / "keep_then_replace_stale_scratch.json", "reference:scratch opened without truncation, stale scratch file", expect_violation=True)
     summ = vlib.run_driver("drv_crash", ["--out", str(chk.wd / "cr"), "--seed", str(chk.seed), "--histories", "0,1,3" if q else "0,1,2,3,4,5,6",
                                          "--sizes", "1x1,4x3" if q else "1x1,2x2,4x3,8x5,16x8"], chk.wd, timeout=3000)
     f = summ["files"][0]
@@ -50,8 +52,13 @@ def run(chk, args):
             continue
         seen.add(key)
         pf = chk.wd / f"program_{T['tid']}.json"
-        pf.write_text(json.dumps({"had_old": T["had_old"], "ops": T["program"]}))
+        pf.write_text(json.dumps({"had_old": T["had_old"], "leftover": 0, "ops": T["program"]}))
         res = fs_model(chk, pf, f"observed:tid{T['tid']}")
+        if not res.violated:
+            # the same program started over the leftovers of an earlier interrupted save (a longer stale scratch file)
+            nwrites = sum(1 for o in T["program"] if o["op"] == "write")
+            pf.write_text(json.dumps({"had_old": T["had_old"], "leftover": nwrites + 2, "ops": T["program"]}))
+            res = fs_model(chk, pf, f"observed-after-interrupted-save:tid{T['tid']}")
         if res.violated:
             rp = chk.write_replay({"kind": "model-on-observed-program", "violated": res.violated, "program": T["program"][:6] + ["..."] + T["program"][-4:],
                                    "had_old": T["had_old"], "tlc_output": res.error_text()})
